@@ -248,7 +248,7 @@ def check():
         else:
             o.inconc("UNCONFIRMED: lemma(s) fail (%s) but the real lexer and parser give tiling tokens and ordered in-range leaves on %d texts" % ("; ".join(bad[:3]), len(detail)))
     elif mism:
-        o.inconc("translator validation failed: real lexer/parser misbehave (%s) although every lemma holds" % mism[:3])
+        o.oracle_only("real lexer/parser misbehave (%s) although every lemma holds" % mism[:3], rdir)
     return o.finish()
 
 
